@@ -56,7 +56,8 @@ CHECKS["C03"] = dict(
     text="Theorems: a message that still exists under a UID after any further history (expunges, moves, packing, deliveries, "
          "copies, restarts) has the same content and internal date; one message per UID; the UID form of a command resolves "
          "to exactly the positions whose UID is in the set's denotation. Tied to the code by comparing every body fetch of "
-         "generated histories (packing forced at 4 messages) with the model and by a binding oracle over the real files.",
+         "generated histories (packing forced at 4 messages) with the model and by a binding oracle over the real files; plus a "
+         "delivery injected between the management task's resync and its pack of a sparse folder.",
     note=MBOX_NOTE, ref="6/C03")
 CHECKS["C04"] = dict(
     technique="Coq refinement + invariant proofs (STORE = reference set operations; Seen/unseen complement in every reachable world) over generated flag maps; differential correspondence; flag oracle and probes",
@@ -71,7 +72,8 @@ CHECKS["C05"] = dict(
     text="Theorems: EXPUNGE/CLOSE/UID EXPUNGE/MOVE remove exactly the selected messages and nothing else changes; APPEND/COPY/"
          "MOVE/delivery add exactly one message per source in order with the same content, date and flags plus \\Recent and "
          "UIDs from UIDNEXT; no step ever loses another message; commands of an EXAMINE session change no message or flag. "
-         "Tied by step-by-step comparison and by an exactness oracle over white-box snapshots around every command.",
+         "Tied by step-by-step comparison and by an exactness oracle over white-box snapshots around every command; plus UID "
+         "EXPUNGE of part of the \\Deleted messages after message numbers and UIDs have drifted apart.",
     note=MBOX_NOTE, ref="6/C05")
 CHECKS["C13"] = dict(
     technique="Coq proofs about the resync of the world model (deliveries appended, sessions told in order, Seen iff not unseen) and about the content written to / derived from .mh_sequences (Model/MhSeq.v, membership characterisations) + correspondence with an external MH agent and with the real Mailbox sequence methods + .mh_sequences oracle",
@@ -131,9 +133,11 @@ CHECKS["C06"] = dict(
          "command step sends its issuer exactly one tagged response as the last thing, for all arguments. On the implementation "
          "every command template x message-set class x mailbox class x session state (also after a restart) is sent through "
          "the real proxy loop: one complete tagged line with the right tag, virtual elapsed time below COMMAND_TIMEOUT (never "
-         "the watchdog), session usable afterwards unless BYE.",
+         "the watchdog), session usable afterwards unless BYE. Also two-connection races (DELETE/RENAME/EXPUNGE of a mailbox on one "
+         "connection, STATUS/SELECT/EXAMINE/APPEND/DELETE/LIST for it on another a few event-loop turns later): each command answered "
+         "once, not by the watchdog.",
     note=TB + "The outcome table of command() is a hand model compared with the real method driven by stub handlers; 'promptly' is "
-         "measured under the virtual clock (timers free to fire); concurrency between sessions is C10's.", ref="6/C06")
+         "measured under the virtual clock (timers free to fire); linearizability of concurrent sessions is C10's.", ref="6/C06")
 CHECKS["C10"] = dict(
     technique="Coq proofs (admission relation sound for declared footprints; commuting steps => interleaving = serial, n commands; hold-one-mailbox discipline => no deadlock; two-step FETCH/STORE/SEARCH: invariant and no-EXPUNGE under every interleaving) + seeded schedule exploration with a linearizability oracle evaluated in Coq",
     text="PARTIAL. Theorems: would_conflict (hand model, compared exhaustively with Mailbox.would_conflict) never admits a command "
